@@ -172,6 +172,10 @@ func runC04(c *Ctx) {
 			c.Inc("accepted_with_limit_above_coresize")
 		}
 		nw := r.Range(1, 4)
+		if m >= 64 && m <= 4096 && r.Chance(1, 60) {
+			nw = r.Range(129, 300) // a melee: more warriors than fit in a byte
+			c.Inc("melees_with_more_than_128_warriors")
+		}
 		rec := &addrRecorder{m: m}
 		s.AddReporter(rec)
 		var ws []g.Warrior
@@ -184,19 +188,35 @@ func runC04(c *Ctx) {
 			for j := range w.Code {
 				w.Code[j] = randInsn(r, m, int(min(cfg.ReadLimit, cfg.CoreSize)), int(min(cfg.WriteLimit, cfg.CoreSize)))
 			}
+			if nw <= 4 && r.Chance(1, 12) {
+				w.Start = l + r.Intn(2*m) // an entry point outside the code
+			}
+			if nw >= 3 && nw <= 4 && i > 0 && r.Chance(1, 6) {
+				w.NeverSpawn = true
+			}
 			k.Warriors = append(k.Warriors, w)
 			rec.areas = append(rec.areas, [2]int{w.Off % m, l})
 		}
 		setup := func() {
+			var added []*BWarrior
 			for _, w := range k.Warriors {
 				gw, e := s.AddWarrior(&g.WarriorData{Code: toGCode(w.Code), Start: w.Start})
 				if e != nil {
+					if w.Start >= len(w.Code) {
+						// an entry point outside the code may be refused; the simulator must stay sound
+						c.Inc("addwarrior_refused_start_outside_code")
+						continue
+					}
 					err = e
 					return
 				}
 				ws = append(ws, gw)
+				added = append(added, w)
 			}
-			for i, w := range k.Warriors {
+			for i, w := range added {
+				if w.NeverSpawn {
+					continue // added but never started: it must simply be skipped by the scheduler
+				}
 				if e := s.SpawnWarrior(i, g.Address(w.Off)); e != nil {
 					err = e
 					return
@@ -248,7 +268,7 @@ func runC04(c *Ctx) {
 			}
 		} else {
 			steps := int(min(k.Config.Cycles, 300))
-			if m > 4096 {
+			if m > 4096 || nw > 100 {
 				steps = min(steps, 40)
 			}
 			for cyc := 0; cyc < steps+2; cyc++ {
